@@ -137,7 +137,10 @@ def multi_fanout(R, ctx, rule, methods=('reopen_output', 'trigger_rotation')):
             nf = sum(1 for e in r.effects if 'o_file_writer' in e[1][0])
             no = sum(1 for e in r.effects if 'o_other_writer' in e[1][0])
             combos.add((fw, ow))
-            if fw == 'Some' and nf != 1:
+            if fw is None or ow is None:
+                bad = (f"returns on a path on which the {'file' if fw is None else 'additional'} writer was not even examined (e.g. after the other one reported an error): "
+                       "all writers must be attempted, only the first error is reported")
+            elif fw == 'Some' and nf != 1:
                 bad = f"with a file writer present it is addressed {nf} times (additional writer: {ow})"
             elif ow == 'Some' and no != 1 and not (fw == 'Some' and False):
                 bad = f"with an additional writer present it is addressed {no} times (file writer: {fw})"
